@@ -50,7 +50,8 @@ def run(ctx, judge_extra=None):
     stride = 1
     for layer in layers(ctx.tier):
         w = ctx.worker(layer)
-        for fname, fam in authgen.all_families():
+        fams = authgen.all_families() + [("random", authgen.random_family(ctx.seed, 40000 if ctx.tier == "quick" else 600000))]
+        for fname, fam in fams:
             batch, metas = [], []
 
             def flush():
